@@ -232,6 +232,9 @@ func Heap(r *rand.Rand) *Doc {
 				per = int64(1 + r.Intn(40)) // ... and small ones: the unsampling factor is far from 1 unless the rate is <= 1
 			}
 			rc.ib = rc.ic * per
+			if rc.ic > 1 && r.Intn(3) == 0 {
+				rc.ib += int64(r.Intn(int(rc.ic))) // the mean object size is not a whole number
+			}
 		}
 		rc.ac = rc.ic + int64(r.Intn(3))
 		if rc.ac > 0 {
@@ -736,7 +739,8 @@ func Java(r *rand.Rand) *Doc {
 		sb.WriteString("\n")
 	}
 	sb.WriteString("\n")
-	for ad := uint64(3); ad < 15; ad++ {
+	for _, q := range r.Perm(12) {
+		ad := uint64(3 + q)
 		switch ad % 4 {
 		case 0:
 			fmt.Fprintf(&sb, " 0x%08x com.example.function%03d (Source%03d.java:%d)\n", ad, ad, ad, 100+ad)
@@ -748,7 +752,11 @@ func Java(r *rand.Rand) *Doc {
 			fmt.Fprintf(&sb, " 0x%08x com.example.function%03d (Unknown Source)\n", ad, ad)
 		}
 	}
-	d := &Doc{Kind: "java:" + kind, Bytes: []byte(sb.String()), Records: len(recs), Features: []string{"java." + kind}}
+	text := sb.String()
+	if r.Intn(3) == 0 {
+		text = strings.TrimSuffix(text, "\n") // a document cut off right after its last character
+	}
+	d := &Doc{Kind: "java:" + kind, Bytes: []byte(text), Records: len(recs), Features: []string{"java." + kind}}
 	d.Check = func(p *profile.Profile) string {
 		if len(p.Sample) != len(recs) {
 			return fmt.Sprintf("%d samples want %d", len(p.Sample), len(recs))
